@@ -31,7 +31,9 @@ SPEC = {
             "(X/B/W/D/L, overlapping, %I/%M areas, hierarchical, wildcard, ill-typed values) x fault policy x watchdog "
             "action x a 12-24 step history of cycle / clock advance / watchdog_timeout / simulation_fault / policy, "
             "watchdog and safe-state updates / queued debug I/O writes (also ill-typed) / restart warm|cold / "
-            "force_io / release_io (also ill-typed) / execution deadline in the past / clear_fault; one case in six "
+            "force_io / release_io (also ill-typed) / debugger variable writes queued at arbitrary points, in particular "
+            "while faulted (enqueue_global_write, enqueue_instance_write by InstanceId, enqueue_lvalue_write to a global "
+            "name and to a program's field) / force_global / release_global / execution deadline in the past / clear_fault; one case in six "
             "ends by handing the runtime to a real ResourceRunner thread (deterministic gate clock, watchdog "
             "enabled/disabled with a 1 ns or 1 h timeout, one in three with a simulation controller whose post-cycle "
             "step fails) and compares the thread's whole event log, final state and "
@@ -54,7 +56,8 @@ SPEC = {
     ],
     "assumptions": [
         "deterministic drivers/retain store (functions of their own state and the image they are handed)",
-        "forced variables (DebugControl::force_global/...) and the health sink are not modelled (forced I/O values are); "
+        "the health sink is not modelled (pending debugger writes, forced I/O values and forced variables are; what a "
+        "write does to the storage is an arbitrary function `poke` in the theorems); "
         "IoAddress.bit <= 7 as IoAddress::parse guarantees",
         "restart succeeds (its failure paths and what it does to variables are C09's subject)",
         "the resource thread is modelled without pause/commands; the restart-request block is modelled as the code "
@@ -72,7 +75,9 @@ MANIFEST = {
                   "arbitrary functions), every safe-state map and every history: c08_refused / c08_latched (a cycle request "
                   "on a faulted resource returns ResourceFaulted, is the identity on the whole state, calls no driver and "
                   "runs no statement; induction over histories without restart/clear_fault, also across further "
-                  "watchdog/simulation faults and configuration updates), c08_error_latches / c08_fault_sources(_complete) / "
+                  "watchdog/simulation faults and configuration updates), c08_latched_queue / c08_queue_drained (debugger "
+                  "variable and l-value writes queued while latched stay queued and never reach the storage; the first cycle "
+                  "that is not refused applies them in order and empties both queues), c08_error_latches / c08_fault_sources(_complete) / "
                   "c08_phase_errors / c08_source_{program,driver_read,driver_write} (whichever phase, driver or program "
                   "fails first, its error is returned, latched, and nothing later runs), c08_safe_image / "
                   "c08_cycle_safe_halt / c08_fault_op_safe (under a safe-state decision every entry whose value has the "
@@ -90,7 +95,7 @@ MANIFEST = {
                   "the differential run, whose generator bounds what it sees: histories of 12-24 operations, <= 3 drivers, "
                   "<= 4 programs). Only tested, not proved: the concrete statement language / scheduler / coercions used to "
                   "replay cases (the theorems do not depend on them). Not modelled: pause/commands/restart signal and the "
-                  "simulation controller of the resource thread (only the result of apply_post_cycle), forced variables, "
+                  "simulation controller of the resource thread (only the result of apply_post_cycle), "
                   "the health sink, SharedGlobals synchronisation; hierarchical addresses never reach a driver (C07). "
                   "Finding C08-runner-post-cycle is repaired in /repo (560796d); its witness (--probe postcycle, corpus cases "
                   "7-8) is a regression case. Remaining same-shape bypasses in scheduler.rs, which end the thread in "
@@ -203,7 +208,7 @@ def oracle_case(case):
                 bad.append("cycle on a faulted resource not refused")
             if d["ev"] != "-" or d["pr"] != "-" or d["st"] != prev["st"]:
                 bad.append("refused cycle executed statements or called a driver")
-            if d.get("ch") != "0" or any(d[x] != prev[x] for x in ("in", "out", "mem", "lf", "cc", "sr")):
+            if d.get("ch") != "0" or any(d[x] != prev[x] for x in ("in", "out", "mem", "lf", "cc", "sr", "gv", "ns")):
                 bad.append("refused cycle changed observable state")
         if name == "cycle" and d["e"] == "-" and d["f"] != "0":
             bad.append("successful cycle left the resource faulted")
